@@ -94,7 +94,7 @@ def rule_r1(ctx, rep):
             if not ok:
                 rep.add("R1", m.qname, node, f"`{norm(child)}` becomes a child of `{norm(owner)}` but `{norm(child)}.parent = {norm(owner)}` "
                         f"does not accompany it on every path: a listed child whose parent link names another node", m.loc(node))
-    rep.floor("child-list insertions in Node", 4)
+    rep.floor("child-list insertions in Node", 3)
     # who-may-write: outside class Node nobody touches a child list or re-binds it
     bad = outside_writers(ctx, prog.modules.values(), skip_class=NODE_Q)
     for (fi, node, why) in bad:
@@ -291,6 +291,22 @@ def rule_r2(ctx, rep):
                     else:
                         swaps[id(n)] = ("lost",)
                     rep.count("swaps in shift")
+    # any other way of changing the child list inside shift (remove and re-insert) is not an exchange of two positions
+    moved = []
+    for n in ast.walk(fi.node):
+        if isinstance(n, ast.Call) and isinstance(n.func, ast.Attribute) and n.func.attr in ("pop", "insert", "remove", "append", "extend", "sort", "reverse", "clear") \
+                and _is_children(nm, n.func.value):
+            moved.append(n)
+        if isinstance(n, ast.Delete) and any(isinstance(t, ast.Subscript) and _is_children(nm, t.value) for t in n.targets):
+            moved.append(n)
+        if isinstance(n, ast.Assign) and any(isinstance(t, ast.Subscript) and isinstance(t.slice, ast.Slice) and _is_children(nm, t.value) for t in n.targets):
+            moved.append(n)
+    for n in moved:
+        rep.oblige(("R2", "exchange-only", norm(n)[:50]), False)
+        rep.add("R2", fi.qname, n, "shift changes the child list other than by exchanging two positions (remove / re-insert): the children between "
+                "the old and the new position slide by one, which is not what shifting among same-named siblings does in the ordered-list model", fi.loc(n))
+    if not swaps and moved:
+        return
     if not swaps:
         raise AnalysisError("anchor vanished: no swap of child positions in Node.shift")
     dom = SwapDomain(fi, rvar, swaps)
@@ -454,6 +470,15 @@ def rule_r4(ctx, rep):
     rep.floor("descendant-query loops", 2)
 
 
+def rule_r5(ctx, rep):
+    """queries and edits observe the tree as it is: no Node method keeps state between calls in a mutable default argument or
+    a module-level container (the registry Node.store is C14's subject)"""
+    from ..memo import check_slice
+    nm = ctx.world.nm
+    funcs = [m for m in nm.ci.methods.values()]
+    check_slice(ctx, rep, "R5", funcs, "a Node query / edit")
+
+
 def run(ctx, rep):
     rep.explanation = (
         "link pairing: every statement that puts an object into a child list is accompanied, on all paths (marker dataflow, "
@@ -461,10 +486,10 @@ def run(ctx, rep):
         "subscript is proven in bounds for its exact offset (guard facts), the returned variable follows every swap on all paths, "
         "and only the documented ValueError escapes, before any write; for add/remove/replace/shift no failure point is "
         "reachable after a write to the tree (validate-then-mutate)")
-    rep.rules_run = ["R1", "R2", "R3", "R4"]
+    rep.rules_run = ["R1", "R2", "R3", "R4", "R5"]
     rep.assumptions += ["NOT decided: equivalence with an ordered-list model over all histories; results of the queries",
                         "a write to the incoming node before it is attached (new_child.parent = self) is not tree state yet"]
     only = getattr(rep, "only", None)
-    for name, fn in (("R1", rule_r1), ("R2", rule_r2), ("R3", rule_r3), ("R4", rule_r4)):
+    for name, fn in (("R1", rule_r1), ("R2", rule_r2), ("R3", rule_r3), ("R4", rule_r4), ("R5", rule_r5)):
         if only in (None, name):
             fn(ctx, rep)
